@@ -107,15 +107,17 @@ def enc_op(op) -> str:
     return ":".join([o] + [str(a) for a in op[1:]])
 
 
-def encode(prog, mode: str, factor: Fraction) -> list[str]:
-    """Lines for the Lean driver: one `task` line per script, `init`, `run`."""
-    lines = []
+def encode(prog, mode: str, factor: Fraction = Fraction(0), draw: Fraction = Fraction(1, 2)) -> list[str]:
+    """Lines for the Lean driver: `reset`, one `task` line per script, `locks`, `init`, `run`
+    (the answer to the last line is the log)."""
+    lines = ["reset"]
     for sid, t in enumerate(prog["tasks"]):
         ops = ";".join(enc_op(o) for o in t["ops"]) or "-"
         lines.append(f"task {sid} {t['kind']} {rat(pri_frac(t['pri']))} {ops}")
     init = " ".join(f"{a}{b}" for a, b in prog["init"]) or "-"
+    lines.append(f"locks {prog.get('locks', 0)}")
     lines.append(f"init {init}")
-    lines.append(f"run {mode} {rat(factor)}")
+    lines.append("run list" if mode == "list" else f"run prio {rat(factor)} {rat(draw)}")
     return lines
 
 
